@@ -3,43 +3,126 @@ use crate::*;
 use rooc::pipe::*;
 use rooc::{Auto, BuilderConstraint, Expr, ModelBuilder, Var};
 
-/// Builds a builder `Expr` with the builder's own operator overloads / helper functions
-/// (the generator's tree is mapped onto the API a user would call).
-fn bexpr(v: &Value, vars: &[Var]) -> Expr {
+/// An operand as a user of the builder holds it: a variable handle, a float or integer literal, or an expression.
+/// Every operator overload of the builder (Var OP Var, Var OP f64, i32 OP Var, Expr OP i32, ...) is its own piece of
+/// code, so the generator's tree is mapped onto the overload a user would hit with operands of these kinds.
+enum Opnd {
+    V(Var),
+    F(f64),
+    I(i32),
+    E(Expr),
+}
+impl Opnd {
+    fn ex(self) -> Expr {
+        match self {
+            Opnd::V(v) => Expr::from(v),
+            Opnd::F(x) => Expr::from(x),
+            Opnd::I(i) => Expr::from(i as f64),
+            Opnd::E(e) => e,
+        }
+    }
+}
+macro_rules! arith {
+    ($l:expr, $r:expr, $op:tt) => {
+        match ($l, $r) {
+            (Opnd::V(a), Opnd::V(b)) => a $op b,
+            (Opnd::V(a), Opnd::F(b)) => a $op b,
+            (Opnd::V(a), Opnd::I(b)) => a $op b,
+            (Opnd::V(a), Opnd::E(b)) => a $op b,
+            (Opnd::F(a), Opnd::V(b)) => a $op b,
+            (Opnd::I(a), Opnd::V(b)) => a $op b,
+            (Opnd::E(a), Opnd::V(b)) => a $op b,
+            (Opnd::E(a), Opnd::F(b)) => a $op b,
+            (Opnd::E(a), Opnd::I(b)) => a $op b,
+            (Opnd::F(a), Opnd::E(b)) => a $op b,
+            (Opnd::I(a), Opnd::E(b)) => a $op b,
+            (Opnd::E(a), Opnd::E(b)) => a $op b,
+            (a, b) => a.ex() $op b.ex(), // literal OP literal: no overload of the builder's
+        }
+    };
+}
+macro_rules! logic {
+    ($l:expr, $r:expr, $op:tt) => {
+        match ($l, $r) {
+            (Opnd::V(a), Opnd::V(b)) => a $op b,
+            (Opnd::V(a), Opnd::E(b)) => a $op b,
+            (Opnd::E(a), Opnd::V(b)) => a $op b,
+            (a, b) => a.ex() $op b.ex(),
+        }
+    };
+}
+
+fn bopnd(v: &Value, vars: &[Var], lits: &mut usize) -> Opnd {
     let a = v.as_array().unwrap();
     let tag = a[0].as_str().unwrap();
-    let e = |i: usize| bexpr(&a[i], vars);
-    let list = |i: usize| {
-        a[i].as_array()
-            .unwrap()
-            .iter()
-            .map(|x| bexpr(x, vars))
-            .collect::<Vec<_>>()
-    };
     match tag {
-        "num" => Expr::from(fnum(&a[1])),
+        "num" => {
+            let x = fnum(&a[1]);
+            *lits += 1;
+            // whole literals are written as integers every other time (10 - x, x * 2), as floats otherwise
+            if x.fract() == 0.0 && x.abs() < 1e9 && *lits % 2 == 0 {
+                Opnd::I(x as i32)
+            } else {
+                Opnd::F(x)
+            }
+        }
         "var" => {
             let n = a[1].as_str().unwrap();
             let idx: usize = n[1..].parse().unwrap();
-            Expr::from(vars[idx])
+            Opnd::V(vars[idx])
         }
-        "neg" => -e(1),
-        "abs" => rooc::builder::abs(e(1)),
-        "min" => rooc::builder::min(list(1)),
-        "max" => rooc::builder::max(list(1)),
-        "and" => rooc::builder::all(list(1)),
-        "or" => rooc::builder::any(list(1)),
-        "not" => !e(1),
-        "xor" => e(1) ^ e(2),
-        "implies" => e(1).implies(e(2)),
-        "iff" => e(1).iff(e(2)),
-        "+" => e(1) + e(2),
-        "-" => e(1) - e(2),
-        "*" => e(1) * e(2),
-        "/" => e(1) / e(2),
-        "band" => e(1) & e(2),
-        "bor" => e(1) | e(2),
+        _ => Opnd::E(bexpr_inner(v, vars, lits)),
+    }
+}
+
+fn bexpr_inner(v: &Value, vars: &[Var], lits: &mut usize) -> Expr {
+    let a = v.as_array().unwrap();
+    let tag = a[0].as_str().unwrap();
+    let mut o = |i: usize| bopnd(&a[i], vars, lits);
+    match tag {
+        "num" | "var" => unreachable!("leaves are operands"),
+        "neg" => match o(1) {
+            Opnd::V(x) => -x,
+            x => -x.ex(),
+        },
+        "not" => match o(1) {
+            Opnd::V(x) => !x,
+            x => !x.ex(),
+        },
+        "abs" => match o(1) {
+            Opnd::V(x) => rooc::builder::abs(x),
+            x => rooc::builder::abs(x.ex()),
+        },
+        "min" | "max" | "and" | "or" => {
+            let items = a[1].as_array().unwrap();
+            let list = items.iter().map(|x| bopnd(x, vars, lits).ex()).collect::<Vec<_>>();
+            match tag {
+                "min" => rooc::builder::min(list),
+                "max" => rooc::builder::max(list),
+                "and" => rooc::builder::all(list),
+                _ => rooc::builder::any(list),
+            }
+        }
+        "xor" => { let (l, r) = (o(1), o(2)); logic!(l, r, ^) }
+        "band" => { let (l, r) = (o(1), o(2)); logic!(l, r, &) }
+        "bor" => { let (l, r) = (o(1), o(2)); logic!(l, r, |) }
+        "implies" => { let (l, r) = (o(1), o(2)); l.ex().implies(r.ex()) }
+        "iff" => { let (l, r) = (o(1), o(2)); l.ex().iff(r.ex()) }
+        "+" => { let (l, r) = (o(1), o(2)); arith!(l, r, +) }
+        "-" => { let (l, r) = (o(1), o(2)); arith!(l, r, -) }
+        "*" => { let (l, r) = (o(1), o(2)); arith!(l, r, *) }
+        "/" => { let (l, r) = (o(1), o(2)); arith!(l, r, /) }
         t => panic!("builder tag {t}"),
+    }
+}
+
+fn bexpr(v: &Value, vars: &[Var]) -> Expr {
+    // the literal counter starts from the tree's own size, so the same tree always gets the same spelling (replays)
+    let mut lits = v.to_string().len();
+    let a = v.as_array().unwrap();
+    match a[0].as_str().unwrap() {
+        "num" | "var" => bopnd(v, vars, &mut lits).ex(),
+        _ => bexpr_inner(v, vars, &mut lits),
     }
 }
 
